@@ -262,6 +262,16 @@ def rule_structure(ctx, rule, rule_layout=None):
     where = where_of(cd) if cd is not None and not getattr(cd, "missing", False) else None
     decided = 0
     thorough = ctx.tier == "thorough"
+    # block comments belong to the layouts only where the reader has them: a lexer that answers `#|` with "unrecognized token" does
+    # not support the form (the property is about the supported lexical grammar), one that reads through it is held to it
+    block_comments = True
+    if thorough:
+        probe = read(fb, "#| x |# a ")
+        block_comments = probe[0] == "datum"
+        ctx.inst(rule, "layouts/block-comments", {"supported_by_the_reader": block_comments})
+        if probe[0] == "error":
+            ctx.assume("`#| ... |#` block comments are not part of the lexical grammar this reader supports (`#|` is answered with a syntax "
+                       "error): layouts with block comments are outside the property")
     for text in STRUCTURES:
         try:
             want = _from_reference(R.read_all(text)[0])
@@ -270,6 +280,8 @@ def rule_structure(ctx, rule, rule_layout=None):
         bad = None
         n = und = 0
         for lay in (layouts(text) if thorough else layouts(text)[:4]):
+            if "#|" in lay and not block_comments:
+                continue
             r = read(fb, lay + " ")
             if r[0] == "stuck":
                 und += 1
